@@ -73,7 +73,21 @@ class UFBatchTarget:
 
 
 def hmc_struct(eng, **kw):
+    """The sampler struct as the real constructor builds it (so fields added by a change keep their real initial
+    values), with the given fields overridden."""
     order = eng.src_index["structs"]["HMC"]
+    base = None
+    pos = kw.get("positions")
+    if pos is not None and eng.ctx is not None:
+        try:
+            rows = [RVec(list(pos.a[r])) for r in range(pos.a.shape[0])]
+            base = eng.call_fn(eng.find_fn("HMC::new"), [Opaque("target"), RVec(rows), kw.get("step_size", Num(1)), kw.get("n_leapfrog", 1)])
+        except Exception:
+            base = None
+    if isinstance(base, Struct) and base.names == list(order):
+        for k, v in kw.items():
+            base.set(k, v)
+        return base
     return Struct("HMC", order, [kw.get(k, Opaque(k)) for k in order])
 
 
@@ -306,6 +320,60 @@ def c14_hmc(out, tier, seed):
                 for r in range(n):
                     u.holds(ctx, "HMC never moves a chain to a state whose log-density is NaN (nor to NaN coordinates)",
                             z3.Not(T.logp_is_nan(list(newpos[r]))), RP_NAN_HMC, "chains=%d dim=%d L=%d row=%d" % (n, d, L, r))
+    finally:
+        mirsym.MUL_MODE["mode"] = "exact"
+    u.done()
+
+
+def c02_hmc_two_steps(out, tier, seed):
+    """Two consecutive steps on the same sampler object: the second step -- which follows whatever mix of acceptances and
+    rejections the first one produced -- must again be L leapfrogs + Metropolis test from the positions the first left."""
+    eng = mir_load.load_engine()
+    mirsym.MUL_MODE["mode"] = "uf"
+    configs = [(2, 1, 1)] + ([(2, 1, 2), (3, 1, 1)] if tier == "thorough" else [])
+    u = MUnit(out, "C02", "c02_hmc_two_steps", eng, functions=["HMC::new", "HMC::step (twice)", "HMC::leapfrog"],
+              bounds=["(chains, dim, L) in %s; two steps; every accept/reject combination of the first step is a path or a "
+                      "symbolic mask" % (configs,)],
+              assumptions=R_ASSUME + ["products of two symbolic reals abstracted by a commutative uninterpreted product"],
+              out_of_scope=["longer histories (sampler state is the positions + gradient carry, both covered here)"])
+    step = eng.find_fn("HMC::step")
+    try:
+        for (n, d, L) in configs:
+            T = UFBatchTarget(d)
+            T.install(eng)
+
+            def run(ctx, n=n, d=d, L=L):
+                X = [[ctx.fresh_real("x") for _ in range(d)] for _ in range(n)]
+                eps = ctx.fresh_real("eps")
+                me = hmc_struct(eng, step_size=eps, n_leapfrog=L, positions=Ten(obj_array([v for r in X for v in r], (n, d))),
+                                rng=Struct("SmallRng", ["seed"], [Opaque("state")]))
+                cell = Ref.to(me)
+                eng.call_fn(step, [cell])
+                mid = me.get("positions").a.copy()
+                n1 = len(ctx.draws)
+                eng.call_fn(step, [cell])
+                return eps, mid, me, ctx.draws[n1:]
+            for ctx, res in eng.explore(run, max_paths=500):
+                u.paths += 1
+                if isinstance(res, Exception):
+                    out.inconclusive.append("c02_hmc_two_steps %s: %r" % ((n, d, L), res))
+                    continue
+                eps, mid, me, draws = res
+                inst = "chains=%d dim=%d L=%d, second step" % (n, d, L)
+                normals = [x for k, x in draws if k.endswith("normal")]
+                unis = [x for k, x in draws if k == "global_uniform"] or [x for k, x in draws if k == "uniform"]
+                if len(normals) != n * d or len(unis) < n:
+                    u.holds(ctx, "a step draws one momentum per coordinate and one acceptance uniform per chain", False, RP_HMC, inst)
+                    continue
+                newpos = me.get("positions").a
+                for r in range(n):
+                    x0 = list(mid[r])
+                    p = normals[r * d:(r + 1) * d]
+                    x1, p1 = ref_leapfrogs(T, x0, p, eps, L)
+                    acc = ln(unis[-n:][r]).le(ham(T, x0, p) - ham(T, x1, p1))
+                    for i in range(d):
+                        u.equal(ctx, "a step that follows accepted and rejected rows is again L leapfrogs from the current position "
+                                "(fresh gradient) plus the Metropolis test", newpos[r, i], ite(acc, x1[i], x0[i]), RP_HMC, inst)
     finally:
         mirsym.MUL_MODE["mode"] = "exact"
     u.done()
